@@ -1014,6 +1014,7 @@ pub struct ObjFiber {
     pub(crate) return_value: Value,
     pub(crate) exc_handlers: Vec<ExcHandler>,
     pub(crate) return_ip: Option<*const u8>,
+    pub(crate) return_handlers: usize,
     pub(crate) error_ip: Option<*const u8>,
     pub(crate) error_depth: usize,
 }
@@ -1038,6 +1039,7 @@ impl ObjFiber {
             return_value: Value::None,
             exc_handlers: Vec::new(),
             return_ip: None,
+            return_handlers: 0,
             error_ip: None,
             error_depth: 0,
         }
